@@ -4,14 +4,18 @@ set -eu
 ROOT="$(cd "$(dirname "$0")" && pwd)"
 export CARGO_NET_OFFLINE=true
 cd "$ROOT/harness"
-# four builds (the fourth: fast_qr unoptimised, used by C10 only): main (hooks + assertions), release without hooks (as shipped), release with hooks (for C07 / C17)
-cargo build --offline --profile verifrel -p vcheck --no-default-features --target-dir "$ROOT/harness/target-rel-nohooks" &
+# five builds: main (hooks + assertions), release without hooks (as shipped with svg+image), release with hooks (for C07 / C17),
+# fast_qr unoptimised (C10 only), release with NO cargo feature of fast_qr at all (plain library; symbol-level checks)
+cargo build --offline --profile verifrel -p vcheck --no-default-features --features render --target-dir "$ROOT/harness/target-rel-nohooks" &
 rel=$!
 cargo build --offline --profile verifrel -p vcheck --target-dir "$ROOT/harness/target-rel-hooks" &
 relh=$!
 cargo build --offline --profile verifdev -p vcheck --target-dir "$ROOT/harness/target-dev" &
 dev=$!
+cargo build --offline --profile verifrel -p vcheck --no-default-features --target-dir "$ROOT/harness/target-rel-plain" &
+plain=$!
 cargo build --offline --profile verif -p vcheck
+wait $plain
 wait $dev
 wait $rel
 wait $relh
